@@ -47,7 +47,9 @@ type Loader struct {
 
 	visitedRefs map[string]struct{}
 	visitedPath []string
-	backtrack   map[string][]func(value any)
+	// first reference found to designate an object of another kind than its position allows
+	kindMismatch error
+	backtrack    map[string][]func(value any)
 }
 
 // NewLoader returns an empty Loader
@@ -62,6 +64,14 @@ func (loader *Loader) resetVisitedPathItemRefs() {
 	loader.visitedRefs = make(map[string]struct{})
 	loader.visitedPath = nil
 	loader.backtrack = make(map[string][]func(value any))
+	loader.kindMismatch = nil
+}
+
+// refKindMismatch records that ref, met again while it was being resolved, designates an object of the wrong kind.
+func (loader *Loader) refKindMismatch(ref string, value any, wanted string) {
+	if loader.kindMismatch == nil {
+		loader.kindMismatch = fmt.Errorf("bad data in %q: expected a %s, found %T", ref, wanted, value)
+	}
 }
 
 // LoadFromURI loads a spec from a remote URL
@@ -265,6 +275,7 @@ func (loader *Loader) ResolveRefsIn(doc *T, location *url.URL) (err error) {
 		}
 	}
 
+	err, loader.kindMismatch = loader.kindMismatch, nil
 	return
 }
 
@@ -639,7 +650,12 @@ func (loader *Loader) resolveHeaderRef(doc *T, component *HeaderRef, documentPat
 			return nil
 		}
 		if !loader.shouldVisitRef(ref, func(value any) {
-			component.Value = value.(*Header)
+			v, ok := value.(*Header)
+			if !ok {
+				loader.refKindMismatch(ref, value, "header")
+				return
+			}
+			component.Value = v
 			refPath, _ := loader.resolveRefPath(ref, documentPath)
 			component.setRefPath(refPath)
 		}) {
@@ -699,7 +715,12 @@ func (loader *Loader) resolveParameterRef(doc *T, component *ParameterRef, docum
 			return nil
 		}
 		if !loader.shouldVisitRef(ref, func(value any) {
-			component.Value = value.(*Parameter)
+			v, ok := value.(*Parameter)
+			if !ok {
+				loader.refKindMismatch(ref, value, "parameter")
+				return
+			}
+			component.Value = v
 			refPath, _ := loader.resolveRefPath(ref, documentPath)
 			component.setRefPath(refPath)
 		}) {
@@ -770,7 +791,12 @@ func (loader *Loader) resolveRequestBodyRef(doc *T, component *RequestBodyRef, d
 			return nil
 		}
 		if !loader.shouldVisitRef(ref, func(value any) {
-			component.Value = value.(*RequestBody)
+			v, ok := value.(*RequestBody)
+			if !ok {
+				loader.refKindMismatch(ref, value, "request body")
+				return
+			}
+			component.Value = v
 			refPath, _ := loader.resolveRefPath(ref, documentPath)
 			component.setRefPath(refPath)
 		}) {
@@ -848,7 +874,12 @@ func (loader *Loader) resolveResponseRef(doc *T, component *ResponseRef, documen
 			return nil
 		}
 		if !loader.shouldVisitRef(ref, func(value any) {
-			component.Value = value.(*Response)
+			v, ok := value.(*Response)
+			if !ok {
+				loader.refKindMismatch(ref, value, "response")
+				return
+			}
+			component.Value = v
 			refPath, _ := loader.resolveRefPath(ref, documentPath)
 			component.setRefPath(refPath)
 		}) {
@@ -939,7 +970,12 @@ func (loader *Loader) resolveSchemaRef(doc *T, component *SchemaRef, documentPat
 			return nil
 		}
 		if !loader.shouldVisitRef(ref, func(value any) {
-			component.Value = value.(*Schema)
+			v, ok := value.(*Schema)
+			if !ok {
+				loader.refKindMismatch(ref, value, "schema")
+				return
+			}
+			component.Value = v
 			refPath, _ := loader.resolveRefPath(ref, documentPath)
 			component.setRefPath(refPath)
 		}) {
@@ -1025,7 +1061,12 @@ func (loader *Loader) resolveSecuritySchemeRef(doc *T, component *SecurityScheme
 			return nil
 		}
 		if !loader.shouldVisitRef(ref, func(value any) {
-			component.Value = value.(*SecurityScheme)
+			v, ok := value.(*SecurityScheme)
+			if !ok {
+				loader.refKindMismatch(ref, value, "security scheme")
+				return
+			}
+			component.Value = v
 			refPath, _ := loader.resolveRefPath(ref, documentPath)
 			component.setRefPath(refPath)
 		}) {
@@ -1065,7 +1106,12 @@ func (loader *Loader) resolveExampleRef(doc *T, component *ExampleRef, documentP
 			return nil
 		}
 		if !loader.shouldVisitRef(ref, func(value any) {
-			component.Value = value.(*Example)
+			v, ok := value.(*Example)
+			if !ok {
+				loader.refKindMismatch(ref, value, "example")
+				return
+			}
+			component.Value = v
 			refPath, _ := loader.resolveRefPath(ref, documentPath)
 			component.setRefPath(refPath)
 		}) {
@@ -1109,7 +1155,12 @@ func (loader *Loader) resolveCallbackRef(doc *T, component *CallbackRef, documen
 			return nil
 		}
 		if !loader.shouldVisitRef(ref, func(value any) {
-			component.Value = value.(*Callback)
+			v, ok := value.(*Callback)
+			if !ok {
+				loader.refKindMismatch(ref, value, "callback")
+				return
+			}
+			component.Value = v
 			refPath, _ := loader.resolveRefPath(ref, documentPath)
 			component.setRefPath(refPath)
 		}) {
@@ -1165,7 +1216,12 @@ func (loader *Loader) resolveLinkRef(doc *T, component *LinkRef, documentPath *u
 			return nil
 		}
 		if !loader.shouldVisitRef(ref, func(value any) {
-			component.Value = value.(*Link)
+			v, ok := value.(*Link)
+			if !ok {
+				loader.refKindMismatch(ref, value, "link")
+				return
+			}
+			component.Value = v
 			refPath, _ := loader.resolveRefPath(ref, documentPath)
 			component.setRefPath(refPath)
 		}) {
@@ -1210,7 +1266,12 @@ func (loader *Loader) resolvePathItemRef(doc *T, pathItem *PathItem, documentPat
 			return
 		}
 		if !loader.shouldVisitRef(ref, func(value any) {
-			*pathItem = *value.(*PathItem)
+			v, ok := value.(*PathItem)
+			if !ok {
+				loader.refKindMismatch(ref, value, "path item")
+				return
+			}
+			*pathItem = *v
 		}) {
 			return nil
 		}
